@@ -115,7 +115,14 @@ def _expr(draw, ty, depth, ivars):
     """ty: 'I' int, 'S' seq of int, 'B' bool. ivars: int variable names in scope."""
     leaf = depth <= 0 or draw(st.integers(0, 9)) < 2
     if ty == "S":
-        k = draw(st.integers(0, 1 if leaf else 5))
+        k = draw(st.integers(0, 1 if leaf else 7))
+        if k >= 6 and ivars:
+            # the sequence mentions a variable of an enclosing lambda (names v / w / acc: the folds' own parameter names must not
+            # capture them)
+            q_ = draw(st.sampled_from(["q", "x"]))
+            return f"Select({draw(st.sampled_from(['s0', 's1']))}, lambda {q_}: {q_} - {draw(st.sampled_from(ivars))})"
+        if k >= 6:
+            k = 0
         if k == 0:
             return draw(st.sampled_from(["s0", "s1"]))
         if k == 1:
